@@ -33,6 +33,7 @@ META = {
                    "routed to after learn_one, class sets of categorical predictions (run-time behaviour of river)",
 }
 META["explanation"] += ' Also COPY for TreeStorage / GeometricReservoirStorage, the class value drawn by a standard-library draw over the keys of predict_proba_one, the rebuild-in-place sweep.'
+META["explanation"] += " Round 5: ROOT (no tree root node kept in the state), the sweep depends only on 'a reservoir was just created', the mode flag does not test the storage object for truth. HAZARD: constructs that do not mean what they look like, met in the analysed code (defaults evaluated once, class-level containers changed through self, dict.fromkeys with a shared mutable value, late-binding lambdas, truth value of objects that define __len__) are reported by every check."
 MIN_INSTANCES = {"LEN": 2, "RESERVOIR": 4, "SWEEP": 2, "AGREE": 3, "IMPUTE": 3}
 TS = "TreeStorage"
 WRITER = "get_path_through_tree"
